@@ -125,6 +125,15 @@ func runC09(r *simrt.Run) {
 				})
 			}
 			wl.Ops(p)
+			if mode == nomsim.SporksActive {
+				// hash-time-locks (a fifth of them locked to contracts or keyless addresses) and their unlocks
+				if t.Choose(3) == 0 {
+					nomsim.FlowByName("htlc-create").Run(wl.G, p)
+				}
+				if t.Choose(3) == 0 {
+					nomsim.FlowByName("htlc-unlock").Run(wl.G, p)
+				}
+			}
 			if t.Choose(14) == 0 {
 				w.SkipSlots(int64(1 + t.Choose(60)))
 				r.Fault("missed-slots")
